@@ -104,6 +104,7 @@ func TestWorker(t *testing.T) {
 	states := map[string]struct{}{}
 	scheds := map[string]struct{}{}
 	seenClass := map[string]int{}
+	unstable := map[string]int{}
 	w0 := time.Now()
 	for i := *fFrom; i < *fTo; i += *fStride {
 		if *fWall > 0 && time.Since(w0) > *fWall {
@@ -146,9 +147,8 @@ func TestWorker(t *testing.T) {
 		}
 		if len(r.Violations) > 0 {
 			fp := fingerprint(r)
-			seenClass[fp]++
-			if seenClass[fp] > 2 {
-				// enough witnesses of this class from this worker
+			if seenClass[fp] >= 2 {
+				// enough minimised witnesses of this class from this worker
 				out.Stats["violations.additional_same_class"]++
 				continue
 			}
@@ -157,9 +157,19 @@ func TestWorker(t *testing.T) {
 			// replay of the report decides whether it counts
 			orig := toReplay(r)
 			orig.Note = "not minimised: shrinking inside the worker process was not stable"
+			if unstable[fp] >= 2 {
+				// minimisation already failed twice for this class: do not spend the budget again,
+				// report further witnesses as recorded (bounded), the orchestrator confirms them
+				if unstable[fp] < 40 {
+					unstable[fp]++
+					out.Violations = append(out.Violations, orig)
+				}
+				continue
+			}
 			sr := shrink(t, r, 300)
 			if sr.Abort != "" {
 				out.Stats["shrink.unstable"]++
+				unstable[fp]++
 				out.Violations = append(out.Violations, orig)
 				continue
 			}
@@ -171,9 +181,11 @@ func TestWorker(t *testing.T) {
 			fr := execRun(t, rs2, true)
 			if len(fr.Violations) == 0 {
 				out.Stats["shrink.unstable"]++
+				unstable[fp]++
 				out.Violations = append(out.Violations, orig)
 				continue
 			}
+			seenClass[fp]++
 			out.Violations = append(out.Violations, toReplay(fr))
 		}
 	}
